@@ -103,7 +103,7 @@ CLAIMED["C09"] = (
     "Generated sampler configurations are constructed and run twice with the same random_state inside one process with arbitrary global draws "
     "in between (bit-identical histories, weights, evidence required; a different random_state must change them). For every library operation "
     "named in the property the next global random number after the operation must depend on the seed set before it, and twin samplers whose "
-    "seeds diverge at a generated iteration index must produce different batches from then on. A second check (*_full) applies the same oracle to complete random configurations from vlib.cfggen, in which every constructor option (all evaluation modes incl. two blobs, metric mode, cluster cadence and caps, odd particle counts, step limits, boundary index lists, pool kinds, extra likelihood arguments, integer / NumPy-integer / no random_state) gets a generated value in every case.",
+    "seeds diverge at a generated iteration index must produce different batches from then on. During every sampler operation numpy.random.seed is observed directly: a call with a fixed value after construction is the reset the property forbids (the indirect test only sees a reset that is the last random event of the operation). A second check (*_full) applies the same oracle to complete random configurations from vlib.cfggen, in which every constructor option (all evaluation modes incl. two blobs, metric mode, cluster cadence and caps, odd particle counts, step limits, boundary index lists, pool kinds, extra likelihood arguments, integer / NumPy-integer / no random_state) gets a generated value in every case.",
     "Only numpy's global stream is observed (the library uses nothing else). Statistical independence itself is not decidable from samples; the mechanism that could couple runs is what is tested.",
     "DESIGN.md §2 C09",
 )
